@@ -293,6 +293,28 @@ def rule_lf6(repo, col):
                    % (nm, why), construct="_process_atom: %s not summed per head" % nm, function="LFIProblem._process_atom")
 
 
+def rule_lf7(repo, col):
+    """the evidence probability of an example reaches the log-likelihood as the evaluator computed it: ExampleEvaluator._call_internal stores evaluate_evidence() unmodified
+    (query marginals may be clipped to 0; a clipped evidence probability makes _update skip the example, so the reported value is not the data log-likelihood)"""
+    for cname in ("ExampleEvaluator", "ExampleEvaluatorLog"):
+        c = repo.cls(LFI, cname)
+        f = c.methods.get("_call_internal")
+        if f is None:
+            continue
+        m = f.module
+        calls = [st for st in ast.walk(f.node) if isinstance(st, ast.Assign) and any(isinstance(x, ast.Call) and isinstance(x.func, ast.Attribute) and x.func.attr == "evaluate_evidence" for x in ast.walk(st.value))]
+        if len(calls) != 1:
+            raise AnalysisError("%s._call_internal: evaluate_evidence() not found" % cname)
+        v = calls[0].value
+        raw = isinstance(v, ast.Call) and isinstance(v.func, ast.Attribute) and v.func.attr == "evaluate_evidence"
+        tgt = norm(calls[0].targets[0])
+        rebound = [st for st in ast.walk(f.node) if isinstance(st, ast.Assign) and norm(st.targets[0]) == tgt and st is not calls[0]]
+        col.decide("LF7", m, calls[0], raw and not rebound, "%s stores the evidence probability as computed" % cname,
+                   "%s._call_internal stores %s as the evidence probability of the example: it must be evaluate_evidence() itself - a clipped or otherwise modified value (0.0 below 1e-6) "
+                   "makes _update drop the example from the log-likelihood, which then is not the data log-likelihood and can decrease between iterations" % (cname, norm(v)[:60]),
+                   construct="%s._call_internal: evidence probability modified" % cname, function="%s._call_internal" % cname)
+
+
 def run(repo, col):
     col.rule("LF1", "expected counts: both accumulators weighted by the multiplicity, per index")
     col.rule("LF2", "new parameter = true-count / parent-count under the same index")
@@ -304,3 +326,5 @@ def run(repo, col):
     rule_lf5(repo, col)
     col.rule("LF6", "start weights: reserved mass summed over the heads with multiplicity")
     rule_lf6(repo, col)
+    col.rule("LF7", "the evidence probability of an example is stored unmodified")
+    rule_lf7(repo, col)
